@@ -1084,6 +1084,25 @@ func (kcp *KCP) SetMtu(mtu int) int {
 		return -1
 	}
 
+	// segment payloads live in pool buffers of mtuLimit bytes
+	mss := mtu - IKCP_OVERHEAD
+	if mss > mtuLimit {
+		return -1
+	}
+
+	// segments that are already queued cannot be re-fragmented:
+	// refuse an MTU that is too small to carry them
+	for seg := range kcp.snd_queue.ForEach {
+		if len(seg.data) > mss {
+			return -1
+		}
+	}
+	for seg := range kcp.snd_buf.ForEach {
+		if len(seg.data) > mss {
+			return -1
+		}
+	}
+
 	kcp.mtu = uint32(mtu)
 	kcp.mss = kcp.mtu - IKCP_OVERHEAD
 	kcp.buffer = make([]byte, (mtu+IKCP_OVERHEAD)*3)
